@@ -200,3 +200,30 @@ Definition oracle_datetime_order (c : list (option Z) * list (option Z) * (list 
       || lb_eqb obs (cmp6Z (dt_instant x) (dt_instant y))
   | _, _ => false
   end.
+
+(* conversions to/from datetime.datetime / datetime.time / datetime.date preserve the instant.
+   Judged on the implementation's answers: (value, value converted back, microseconds since
+   1970-01-01T00:00:00Z of the stdlib object).  The stdlib types hold years 1..9999, hours < 24
+   and microseconds: the oracle applies to values in that range whose fraction is a whole
+   number of microseconds. *)
+Definition epoch_days : Z := days_from_civil 1970 1 1.
+Definition std_representable (x : xdatetime) : bool :=
+  (1 <=? dt_year x) && (dt_year x <=? 9999) && (dt_hour x <? 24) && (dt_frac x mod 1000 =? 0).
+Definition oracle_datetime_std (c : list (option Z) * list (option Z) * Z) : bool :=
+  let '(v, back, us) := c in
+  match of_datetime_tuple v with
+  | Some x =>
+      negb (valid_datetime_value x && std_representable x)
+      || (loZ_eqb v back && (dt_instant x =? (us + epoch_days * 86400 * 1000000) * 1000))
+  | None => false
+  end.
+Definition oracle_time_std (c : list (option Z) * list (option Z) * list (option Z)) : bool :=
+  let '(v, back, t) := c in
+  match of_time_tuple v with
+  | Some x =>
+      negb (valid_time_value x && (t_hour x <? 24) && (t_frac x mod 1000 =? 0))
+      || (loZ_eqb v back
+          && loZ_eqb t [Some (t_hour x); Some (t_minute x); Some (t_second x); Some (t_frac x / 1000);
+                        match t_offset x with Some o => Some (o * 60) | None => None end])
+  | None => false
+  end.
